@@ -58,7 +58,66 @@ THEOREMS += [
     "Ural.Props.C05.normalize_total_string",
     "Ural.Props.C05.normalize_only_deletes_string",
 ]
-EXTRA_IMPORTS = ["UralModel.Props.C05Whole"]
+THEOREMS += [
+    # platform_aware=True with the CONCRETE branch (Model/Platform.lean, Props/C05Platform.lean): totality of the branch,
+    # (a) transfer off platform hosts, (b) idempotence, (c) deletions of the canonical platform url, (d) D53 witnesses
+    "Ural.Platform.url_total_of",
+    "Ural.Platform.safe_urlsplit_www",
+    "Ural.Platform.is_youtube_url_www",
+    "Ural.Platform.is_facebook_url_www",
+    "Ural.Props.C05.parsed_url_total",
+    "Ural.Props.C05.platformE_total",
+    "Ural.Props.C05.platformE_eq",
+    "Ural.Props.C05.platform_only_platform_hosts",
+    "Ural.Props.C05.platform_only_platform_hosts_module",
+    "Ural.Props.C05.normalize_pa_of_not_platform",
+    "Ural.Props.C05.fingerprint_pa_of_not_platform",
+    "Ural.Props.C05.pa_transfer",
+    "Ural.Props.C05.fp_pa_transfer",
+    "Ural.Props.C05.normalize_string_split_pa",
+    "Ural.Props.C05.normalize_only_deletes_string_pa",
+    "Ural.Props.C05.normalize_unparseable_string_pa",
+    "Ural.Props.C05.normalize_pa_split",
+    "Ural.Props.C05.normalize_pa_only_deletes_or_rewrites",
+    "Ural.Props.C05.normalize_pa_eq_normalize_canonical",
+    "Ural.Props.C05.platform_idempotent",
+    "Ural.Props.C05.platform_idempotent_module",
+    "Ural.Props.C05.platform_idempotent_needs_charsOk",
+    "Ural.Props.C05.isPlatformUrl_eq_host",
+    "Ural.Props.C05.isPlatformUrl_of_authority",
+    "Ural.Props.C05.isPlatformUrl_forms",
+    "Ural.Props.C05.youtube_host_iff",
+    "Ural.Props.C05.notPlatform_of_host",
+    "Ural.Props.C05.amp_facebook_not_platform_host",
+    "Ural.Props.C05.d53_escaped_path_letter",
+    "Ural.Props.C05.d53_index_file_name",
+    "Ural.Props.C05.d53_amp_dash_not_platform",
+    "Ural.Props.C05.d53_label_in_front_of_host",
+    "Ural.Props.C05.d53_youtube_escaped_id",
+    "Ural.Props.C05.fullPlatformInvariance_false",
+    "Ural.Props.C04.norm_clean_string_pa",
+    "Ural.Props.C04.norm_surrounding_ws_string_pa",
+    "Ural.Props.C04.norm_scheme_string_pa",
+    "Ural.Props.C04.norm_userinfo_string_pa",
+    "Ural.Props.C04.norm_default_port_string_pa",
+    "Ural.Props.C04.norm_host_case_string_pa",
+    "Ural.Props.C04.norm_irrelevant_label_string_pa",
+    "Ural.Props.C04.norm_trailing_slash_string_pa",
+    "Ural.Props.C04.norm_index_string_pa",
+    "Ural.Props.C04.norm_fragment_string_pa",
+    "Ural.Props.C04.norm_tracking_item_string_pa",
+    "Ural.Props.C04.norm_query_permutation_string_pa",
+    "Ural.Props.C04.norm_amp_semicolon_string_partial_pa",
+    "Ural.Props.C04.norm_tracking_item_first_string_pa",
+    "Ural.Props.C04.norm_tracking_item_alone_string_pa",
+    "Ural.Props.C04.norm_escape_spelling_string_pa",
+    "Ural.Props.C06.fp_case_string_pa",
+    "Ural.Props.C06.fp_port_string_pa",
+    "Ural.Props.C06.fp_gl_hl_string_pa",
+    "Ural.Props.C06.fp_lang_label_string_pa_partial",
+    "Ural.Props.C06.fp_shape_whole_pa",
+]
+EXTRA_IMPORTS = ["UralModel.Props.C05Whole", "UralModel.Props.C05Platform"]
 TABLE_OBLIGATIONS = [
     "Ural.Props.C05.irrelevantSubdomain_pattern",
     "Ural.Props.C05.irrelevantSubdomainAmp_pattern",
@@ -80,7 +139,8 @@ RULE = (
     "of bases; then seeded random URLs (hosts built from irrelevant / look-alike / language labels, index "
     "and AMP path tails, tracking / plain / escaped query items incl. '&amp;' separators, routing and plain "
     "fragments, userinfo, ports, odd schemes) each under every row of a strength-2 covering array over all "
-    "twelve options (incl. platform_aware); then the structure sweep of C01. Model vs implementation: the "
+    "twelve options (incl. platform_aware); then the structure sweep of C01; then facebook / youtube url shapes of the C19 generators "
+    "(their corpora + a seeded sample of their enumerated / random streams) under platform_aware=True x 4 option sets. Model vs implementation: the "
     "string handed to the parser (after infer_redirection and cleaning), the unsplit=False tuple and the "
     "final string; for the small functions the real regex / code vs the hand scanner. Oracle: the Reading "
     "of DESIGN §6 C05 on the implementation, written with urllib.parse and ural's public functions. "
@@ -95,16 +155,23 @@ TRUSTED = [
     "urlsplit and the SplitResult accessors: (a) component-level lines (`norm_parts`): CPython, the harness parses the prepared string with the real parser and ships the components to the model; (b) whole-function lines (`normalize_whole`, every case): the model's own parser (Py/UrlSplit.lean, Py/UrlAccessors.lean) inside Model/NormalizeUrl.lean — string + options in, result out — compared with the real normalize_url; strings outside the parser model's stated domain are counted (whole:outside-model:*) and withheld. The hand parser is compared with CPython, not proved equal to it; urlunsplit is modelled by hand (compared on every run)",
     "attempt_to_decode_idna (CPython idna codec) is the abstract parameter `puny`; the driver uses a per-case table computed by the real codec",
     "hand-written model Model/Normalize.lean (+ Model/UrlParts, Model/Quote, Model/Redirect for infer_redirection), tied to the code by differential execution; regexes with look-around are hand scanners tied to the regenerated pattern strings (obligation) and to the real compiled regexes on regenerated probe lists (obligation) and on every case of the stream",
-    "the platform_aware branch (facebook / youtube parsers) is not modelled: abstract `platform`, the harness ships the rewritten URL's components",
+    "the platform_aware branch: (a) the lines `norm_parts` / `normalize_whole` keep the abstract `platform` — the harness ships the rewritten URL's components, resp. the finite table {string handed to the branch: what it returned}; (b) the lines `normalize_whole_pa` / `platform_branch` (every platform_aware=True case + facebook / youtube url shapes of the C19 generators) ship NOTHING about the branch: it is the concrete Platform.platformConcrete of Model/Platform.lean (normalize_url.py:268-276 built from the C19 models of is_facebook_url, parse_facebook_url + .url, is_youtube_url, normalize_youtube_url), compared with the real normalize_url(u, platform_aware=True) and with the real branch; cases outside the component models' stated domains (model alphabet; parser-model domain of the strings the platform parsers split) are counted (pa:outside-model:*) and withheld. The facebook / youtube models are hand-written and tied to the code by the C19 streams and these, not proved equal to it; YOUTUBE_DOMAINS_TRIE is built once by the driver from the regenerated list",
     "str.lower / str.strip / \\d on non-ASCII characters outside the model alphabet (DESIGN §4) are not modelled",
 ]
 ASSUMPTIONS = [
-    "platform_aware=True: the deletion-only clauses are claimed (theorem normalize_platform_partial, oracle) only where the facebook/youtube branch leaves the URL alone; where it fires only totality and correspondence are checked",
+    "platform_aware=True: the ORACLE demands the deletion-only clauses only where the facebook/youtube branch leaves the URL alone; where it fires it demands totality (the design findings KF-C03-2 / KF-C04-4 / KF-C06-4 = D53 say why). The MODEL says what happens there: the result is glued from deletions of the pieces of the canonical platform url (normalize_pa_only_deletes_or_rewrites), i.e. normalize_url of p.url / of normalize_youtube_url(url) (normalize_pa_eq_normalize_canonical)",
     "paths of URLs without authority that do not start with '/' (mailto:x, custom:a/b) are outside the path clause of the oracle",
 ]
 UNPROVED = (
-    "platform_aware=True where the facebook/youtube branch rewrites the URL: FullPlatform is false "
-    "(fullPlatform_false); explored by correspondence only. The theorems of Props/C05.lean are about "
+    "platform_aware=True: the branch is now the concrete Platform.platformConcrete (Props/C05Platform.lean): it never raises "
+    "(platformE_total, every string); off facebook / youtube hosts it is the identity, so every platform-unaware theorem of C04 / C05 / C06 "
+    "holds with the option on (platform_only_platform_hosts, normalize_pa_of_not_platform, the *_pa corollaries; NotPlatform is a property of the "
+    "host text: isPlatformUrl_eq_host, notPlatform_of_host); on platform urls the deletion-only clauses hold of the CANONICAL platform url "
+    "(normalize_pa_only_deletes_or_rewrites) and the rewriting is idempotent (platform_idempotent: youtube every string; facebook under C19's residual "
+    "hypothesis charsOk, platform_idempotent_needs_charsOk shows it fails without). NOT provable, because false: that the option commutes with the "
+    "documented-irrelevant respellings (FullPlatform / FullPlatformInvariance; fullPlatform_false, fullPlatformInvariance_false, d53_* = the design finding D53 "
+    "as theorems about the model). Not proved: that the hand models of ural/facebook.py / ural/youtube.py are the code (correspondence: C19 streams, "
+    "platform_branch, normalize_whole_pa). The theorems of Props/C05.lean are about "
     "Parsed records; Props/C05Whole.lean transports them to STRINGS for the modelled parser: for every string whose cleaned, "
     "resolved form is in the grammar class of Lemmas/NormBridge.lean (scheme prefix / '//' / nothing, userinfo without /?#[], "
     "host name or bracketed IP literal, port text, absolute path, query, fragment) the result tuple is normParts of the record whose fields are "
